@@ -46,9 +46,16 @@ func c18Mod1Step(c *Ctx) {
 				LogMessageRatio: 8, K: 12, Mod1Degree: 63, DoubleAngle: da, Mod1InvDegree: inv, LogScale: 60}})
 		}
 	}
+	// sine: DoubleAngle in the literal is documented as ignored ("only applies for cos and is ignored if sin is used") and
+	// is not counted by Depth(): the reference below does not depend on it, and the levels consumed must equal Depth()
 	for _, inv := range []int{0, 7} {
-		lits = append(lits, lit{fmt.Sprintf("sin_inv%d", inv), mod1.ParametersLiteral{LevelQ: 12, Mod1Type: mod1.SinContinuous,
-			LogMessageRatio: 8, K: 12, Mod1Degree: 127, Mod1InvDegree: inv, LogScale: 60}})
+		for _, da := range []int{0, 2, 3} {
+			if da == 3 && !c.Thorough() {
+				continue
+			}
+			lits = append(lits, lit{fmt.Sprintf("sin_da%d_inv%d", da, inv), mod1.ParametersLiteral{LevelQ: 12, Mod1Type: mod1.SinContinuous,
+				LogMessageRatio: 8, K: 12, Mod1Degree: 127, DoubleAngle: da, Mod1InvDegree: inv, LogScale: 60}})
+		}
 	}
 	scalings := []float64{1, 2, 0.5, 1.0 / 256} // larger scalings overflow the last modulus (values up to K*Q/2pi*scaling)
 	if !c.Thorough() {
@@ -130,6 +137,11 @@ func c18Mod1Step(c *Ctx) {
 				}
 				if err != nil {
 					detail = "error"
+					return
+				}
+				// levels: the input sits at LevelQ, the step consumes exactly ParametersLiteral.Depth() levels
+				if want := l.LevelQ - depth; out.Level() != want {
+					detail = fmt.Sprintf("output at level %d, announced LevelQ - Depth() = %d - %d = %d", out.Level(), l.LevelQ, depth, want)
 					return
 				}
 				pt := dec.DecryptNew(out)
